@@ -84,6 +84,9 @@ def run_check(mod, tier, seed):
     t0 = time.time()
     prop = mod.PROPERTY
     tasks = mod.plan(tier, seed)
+    only = os.environ.get("VERIF_ONLY")  # debugging aid: restrict tasks by label substring
+    if only:
+        tasks = [t for t in tasks if only in t.get("label", "")]
     # seed only permutes task order
     import random
 
